@@ -2,7 +2,7 @@
 C03, block level: the model of comrak's HTML formatter on the tree of a canonical document spells
 exactly the reference rendering, for any nesting depth (mutual induction over `Blk/Blks/Items`).
 -/
-import Comrak.Lemmas.CanonInl
+import Comrak.Lemmas.CanonTbl
 namespace Comrak.Canon
 open Comrak Bytes
 
@@ -11,21 +11,11 @@ def okParent : Option NodeValue → Bool
   | some .document => true
   | some .blockQuote => true
   | some (.item _) => true
+  | some (.taskItem _) => true
   | _ => false
 
 /-- `paraTight` as a function of parent and grandparent. -/
 def pt (p g : Option NodeValue) : Bool := paraTight { parent := p, grand := g }
-
-theorem atBol_eq (l : Bool) (s : Bytes) : atBol l s = lastLfAfter l s := rfl
-
-theorem crB_eq (lf : Bool) : (if lf then [] else [0x0A]) = crB lf := by
-  cases lf <;> rfl
-
-theorem R_crB (lf : Bool) : R W.cr lf (crB lf) := R_congr (R_cr lf) (crB_eq lf)
-
-/-- After the `cr`, the writer is at the beginning of a line whenever something follows. -/
-theorem lf_crB (lf : Bool) (x : Bytes) (h : lastLfAfter false x = true) : lastLfAfter lf (crB lf ++ x) = true :=
-  lastLfAfter_append_nl lf (crB lf) x h
 
 /-! ### Per-kind pieces -/
 
@@ -121,15 +111,15 @@ theorem enter_fence (f : Bool) (c : UInt8) (len off : Nat) (info lit : Bytes) (h
       hs, escape_language', S.t_pre, S.t_code, S.a_class, S.v_language, H.pre_code, H.gt, H.code_pre_close,
       H.lang_attr, H.q]
 
-theorem enter_list (m : Marker) (k : Nat) (hk : k = m.start) :
-    R (enter {} {} cx (.list (m.nlist k m.tight)) sp cs) lf (crB lf ++ refListOpen m) := by
+theorem enter_list (m : Marker) (k : Nat) (hk : k = m.start) (tk : Bool) :
+    R (enter {} {} cx (.list { m.nlist k m.tight with isTaskList := tk }) sp cs) lf (crB lf ++ refListOpen m) := by
   subst hk
   cases ho : m.ordered
-  · have e : enter {} {} cx (.list (m.nlist m.start m.tight)) sp cs = (W.cr ⨟ W.emit [.op S.t_ul [], nl]) := by
+  · have e : enter {} {} cx (.list { m.nlist m.start m.tight with isTaskList := tk }) sp cs = (W.cr ⨟ W.emit [.op S.t_ul [], nl]) := by
       simp [enter, Marker.nlist, ho, spAttr]
     rw [e]
     exact R_congr (R_seq (R_crB lf) (R_emit _ _)) (by simp [refListOpen, ho]; rfl)
-  · have e : enter {} {} cx (.list (m.nlist m.start m.tight)) sp cs =
+  · have e : enter {} {} cx (.list { m.nlist m.start m.tight with isTaskList := tk }) sp cs =
         (W.cr ⨟ W.emit [.op S.t_ol (if m.start = 1 then [] else [litAttr S.a_start (ofNatDec m.start)]), nl]) := by
       simp [enter, Marker.nlist, ho, spAttr]
     rw [e]
@@ -139,13 +129,13 @@ theorem enter_list (m : Marker) (k : Nat) (hk : k = m.start) :
     · simp [refListOpen, ho, h1, spell, Tok.spell, spellAttrs, Attr.spell, litAttr, spellVal, APart.spell, nl,
         S.t_ol, S.a_start, H.ol_open, H.gt_nl, H.ol_start, H.q]
 
-theorem exit_list (m : Marker) (k : Nat) (t : Bool) :
-    R (exit {} cx (.list (m.nlist k t)) cs) lf (refListClose m) := by
+theorem exit_list (m : Marker) (k : Nat) (t tk : Bool) :
+    R (exit {} cx (.list { m.nlist k t with isTaskList := tk }) cs) lf (refListClose m) := by
   cases ho : m.ordered
-  · have e : exit {} cx (.list (m.nlist k t)) cs = W.emit [.cl S.t_ul, nl] := by
+  · have e : exit {} cx (.list { m.nlist k t with isTaskList := tk }) cs = W.emit [.cl S.t_ul, nl] := by
       simp [exit, Marker.nlist, ho]
     rw [e]; exact R_congr (R_emit _ _) (by simp [refListClose, ho]; rfl)
-  · have e : exit {} cx (.list (m.nlist k t)) cs = W.emit [.cl S.t_ol, nl] := by
+  · have e : exit {} cx (.list { m.nlist k t with isTaskList := tk }) cs = W.emit [.cl S.t_ol, nl] := by
       simp [exit, Marker.nlist, ho]
     rw [e]; exact R_congr (R_emit _ _) (by simp [refListClose, ho]; rfl)
 
@@ -154,6 +144,42 @@ theorem enter_item (l : NList) : R (enter {} {} cx (.item l) sp cs) lf (crB lf +
 
 theorem exit_item (l : NList) : R (exit {} cx (.item l) cs) lf H.li_close :=
   R_emit [.cl S.t_li, nl] lf
+
+/-- A list item with or without task marker: `<li>` and the checkbox. -/
+theorem enter_titem (t : Task) (l : NList) : R (enter {} {} cx (t.value l) sp cs) lf (crB lf ++ (H.li_open ++ t.html)) := by
+  cases t with
+  | no => exact R_congr (enter_item cx sp cs lf l) (by simp [Task.html])
+  | unchecked =>
+    have e : enter {} {} cx (Task.unchecked.value l) sp cs =
+        (W.cr ⨟ W.emit [.op S.t_li [], .vd S.t_input [litAttr S.a_type S.v_checkbox, litAttr S.a_disabled []], .lit [0x20]]) := by
+      simp [enter, Task.value, spAttr]
+    rw [e]
+    exact R_congr (R_seq (R_crB lf) (R_emit _ _)) (by
+      simp [spell, Tok.spell, spellAttrs, Attr.spell, litAttr, spellVal, APart.spell, Task.html, H.li_open, H.checkbox,
+        S.t_li, S.t_input, S.a_type, S.v_checkbox, S.a_disabled, S.v_voidend])
+  | checked c =>
+    have e : enter {} {} cx ((Task.checked c).value l) sp cs =
+        (W.cr ⨟ W.emit [.op S.t_li [], .vd S.t_input [litAttr S.a_type S.v_checkbox, litAttr S.a_checked [], litAttr S.a_disabled []], .lit [0x20]]) := by
+      simp [enter, Task.value, spAttr]
+    rw [e]
+    exact R_congr (R_seq (R_crB lf) (R_emit _ _)) (by
+      simp [spell, Tok.spell, spellAttrs, Attr.spell, litAttr, spellVal, APart.spell, Task.html, H.li_open, H.checkbox_checked,
+        S.t_li, S.t_input, S.a_type, S.v_checkbox, S.a_checked, S.a_disabled, S.v_voidend])
+
+theorem exit_titem (t : Task) (l : NList) : R (exit {} cx (t.value l) cs) lf H.li_close := by
+  cases t <;> exact R_emit [.cl S.t_li, nl] lf
+
+theorem titem_lf (t : Task) (lf : Bool) : lastLfAfter lf (crB lf ++ (H.li_open ++ t.html)) = false := by
+  cases t <;> exact lastLfAfter_append_nonl _ _ _ rfl
+
+theorem enter_htmlb (lit : Bytes) : R (enter {} {} cx (.htmlBlock 6 lit) sp cs) lf (crB lf ++ H.omitted) := by
+  have e : enter {} {} cx (.htmlBlock 6 lit) sp cs = ((W.cr ⨟ W.emit [.cmt]) ⨟ W.cr) := by
+    simp [enter, htmlBlockToks]
+  rw [e]
+  have h1 : lastLfAfter lf (crB lf ++ spell [Tok.cmt]) = false := lastLfAfter_append_nonl _ _ _ rfl
+  have := R_seq (R_seq (R_crB lf) (R_emit [Tok.cmt] _)) (R_crB (lastLfAfter lf (crB lf ++ spell [Tok.cmt])))
+  rw [h1] at this
+  exact R_congr this (by simp [spell, Tok.spell, crB, H.nl, H.omitted, S.v_omitted])
 
 end pieces
 
@@ -177,6 +203,11 @@ theorem blk_nl : ∀ (b : Blk) (bol x : Bool), lastLfAfter x (b.html false bol) 
   | .fence _ _ info ls, bol, x => by simp only [Blk.html]; exact lastLfAfter_append_nl _ _ _ rfl
   | .quote bs, bol, x => by simp only [Blk.html]; exact lastLfAfter_append_nl _ _ _ rfl
   | .list m items, bol, x => by simp only [Blk.html]; exact lastLfAfter_append_nl _ _ _ (refListClose_nl m)
+  | .htmlb _, bol, x => by simp only [Blk.html]; exact lastLfAfter_append_nl _ _ _ rfl
+  | .table al h rows, bol, x => by
+    simp only [Blk.html, refTable]
+    rw [← List.append_assoc]
+    exact lastLfAfter_append_nl _ _ _ rfl
 
 theorem blks_nl : ∀ bs : Blks, lastLfAfter true (bs.html false true) = true
   | .nil => rfl
@@ -243,10 +274,17 @@ theorem blk_quote (bs : Blks) (ih : BlksGoal bs) : BlkGoal (.quote bs) := fun cx
 
 theorem blk_list (m : Marker) (items : Items) (ih : ItemsGoal items) : BlkGoal (.list m items) := fun cx lf _ => by
   have h1 : lastLfAfter lf (crB lf ++ refListOpen m) = true := lf_crB lf _ (refListOpen_nl m)
-  have hc := ih m m.start (m.nlist m.start m.tight) cx.parent none 0
-  have := R_node (cx := cx) (sp := {}) rfl (enter_list cx {} (items.toForest m m.start) lf m m.start rfl)
-    (by rw [h1]; exact hc) (exit_list cx _ _ m _ _)
+  have hc := ih m m.start { m.nlist m.start m.tight with isTaskList := items.anyTask } cx.parent none 0
+  have := R_node (cx := cx) (sp := {}) rfl (enter_list cx {} (items.toForest m m.start) lf m m.start rfl items.anyTask)
+    (by rw [h1]; exact hc) (exit_list cx _ _ m _ _ _)
   exact R_congr this (by simp [Blk.html, Marker.nlist])
+
+theorem blk_htmlb (ls : List Bytes) : BlkGoal (.htmlb ls) := fun cx lf _ =>
+  R_leaf (enter_htmlb cx {} .nil lf (joinLines ls)) rfl
+
+theorem blk_table (al : List Align) (h : List Inls) (rows : List (List Inls))
+    (hh : h.all Inls.safe = true) (hr : rows.all (fun r => r.all Inls.safe) = true) : BlkGoal (.table al h rows) :=
+  fun cx lf _ => R_congr (table_goal al h rows hh hr cx lf) (by simp [Blk.html])
 
 theorem blks_nil : BlksGoal .nil := fun p g prev idx lf _ => by
   simp only [Blks.toForest, renderF_nil]; exact R_nop lf
@@ -259,20 +297,21 @@ theorem blks_cons (b : Blk) (r : Blks) (hb : BlkGoal b) (hr : BlksGoal r) : Blks
 theorem items_nil : ItemsGoal .nil := fun m k L g prev idx => by
   simp only [Items.toForest, renderF_nil]; exact R_nop true
 
-theorem items_cons (bs : Blks) (r : Items) (hb : BlksGoal bs) (hr : ItemsGoal r) : ItemsGoal (.cons bs r) :=
+theorem items_cons (t : Task) (bs : Blks) (r : Items) (hb : BlksGoal bs) (hr : ItemsGoal r) : ItemsGoal (.cons t bs r) :=
   fun m k L g prev idx => by
     simp only [Items.toForest, renderF_cons, Items.html]
     have hi : ∀ cx : Ctx, cx.parent = some (.list L) →
-        R (renderT {} {} cx (.node (.item (m.nlist k false)) {} bs.toForest)) true
-          (H.li_open ++ bs.html L.tight false ++ H.li_close) := by
+        R (renderT {} {} cx (.node (t.value (m.nlist k false)) {} bs.toForest)) true
+          (H.li_open ++ t.html ++ bs.html L.tight false ++ H.li_close) := by
       intro cx hcx
-      have hc := hb (some (.item (m.nlist k false))) cx.parent none 0 false rfl
-      have e : pt (some (.item (m.nlist k false))) cx.parent = L.tight := by simp [pt, paraTight, hcx]
+      have hc := hb (some (t.value (m.nlist k false))) cx.parent none 0 false (by cases t <;> rfl)
+      have e : pt (some (t.value (m.nlist k false))) cx.parent = L.tight := by
+        cases t <;> simp [pt, paraTight, hcx, Task.value]
       rw [e] at hc
-      have h1 : lastLfAfter true (crB true ++ H.li_open) = false := rfl
-      exact R_congr (R_node rfl (enter_item cx {} _ true _) (by rw [h1]; exact hc) (exit_item cx _ _ _))
+      have hv : htmlChildren (t.value (m.nlist k false)) = true := by cases t <;> rfl
+      exact R_congr (R_node hv (enter_titem cx {} _ true t _) (by rw [titem_lf]; exact hc) (exit_titem cx _ _ t _))
         (by simp [crB])
-    have hn : lastLfAfter true (H.li_open ++ bs.html L.tight false ++ H.li_close) = true :=
+    have hn : lastLfAfter true (H.li_open ++ t.html ++ bs.html L.tight false ++ H.li_close) = true :=
       lastLfAfter_append_nl _ _ _ rfl
     exact R_congr (R_seq (hi _ rfl) (by rw [hn]; exact hr m (k + 1) L g _ _)) (by simp)
 
@@ -286,6 +325,10 @@ theorem blk_goal : ∀ b : Blk, b.safe = true → BlkGoal b
   | .fence c len info ls, h => blk_fence c len info ls (by simpa [Blk.safe] using h)
   | .quote bs, h => blk_quote bs (blks_goal bs (by simpa [Blk.safe] using h))
   | .list m items, h => blk_list m items (items_goal items (by simpa [Blk.safe] using h))
+  | .htmlb ls, _ => blk_htmlb ls
+  | .table al hd rows, h => by
+    simp only [Blk.safe, Bool.and_eq_true] at h
+    exact blk_table al hd rows h.1 h.2
 theorem blks_goal : ∀ bs : Blks, bs.safe = true → BlksGoal bs
   | .nil, _ => blks_nil
   | .cons b r, h => by
@@ -293,24 +336,9 @@ theorem blks_goal : ∀ bs : Blks, bs.safe = true → BlksGoal bs
     exact blks_cons b r (blk_goal b h.1) (blks_goal r h.2)
 theorem items_goal : ∀ items : Items, items.safe = true → ItemsGoal items
   | .nil, _ => items_nil
-  | .cons bs r, h => by
+  | .cons t bs r, h => by
     simp only [Items.safe, Bool.and_eq_true] at h
-    exact items_cons bs r (blks_goal bs h.1) (items_goal r h.2)
+    exact items_cons t bs r (blks_goal bs h.1) (items_goal r h.2)
 end
-
-/-- Whole documents: the model of `format_document` on `toTree d` spells `refHtml d`. -/
-theorem doc_goal (d : Doc) (h : d.safe = true) : renderHtml {} {} d.toTree = d.refHtml := by
-  have hb := blks_goal d.blocks h (some .document) none none 0 true rfl
-  have hd : R (renderT {} {} {} d.toTree) true (d.blocks.html false true) := by
-    have e1 : enter {} {} {} .document {} d.blocks.toForest = W.nop := rfl
-    have e2 : exit {} {} .document d.blocks.toForest = W.nop := rfl
-    simp only [Doc.toTree, renderT_eq, e1, e2]
-    have := R_seq (R_seq (R_nop true) hb) (R_nop _)
-    exact R_congr (R_weq this (by simp [htmlChildren])) (by simp [pt, paraTight])
-  obtain ⟨h1, h2⟩ := hd {} rfl
-  unfold renderHtml renderToks
-  simp only [W.seq_fst, spell_append, h1, Doc.refHtml]
-  have hf : (renderT {} {} {} d.toTree {}).2.fnIx = 0 := by rw [h2]
-  simp [finish, hf, spell]
 
 end Comrak.Canon
